@@ -10,6 +10,14 @@ def family(pid):
     import p_pred
     if hasattr(p_pred, pid):
         return getattr(p_pred, pid)()
+    import p_history
+    if hasattr(p_history, pid):
+        return getattr(p_history, pid)()
+    if pid in ('C19', 'C11'):
+        import p_query
+        if pid == 'C19':
+            return p_history.with_histories(p_query.C19, 0.25, p_history.falsy_shared_history)()
+        return p_history.with_histories(p_query.C11, 0.25, p_history.infer_history)()
     import p_rules
     if hasattr(p_rules, pid):
         return getattr(p_rules, pid)()
